@@ -36,7 +36,7 @@ package geom
 //@   notypeinv
 //@   ensures result == s.seq.ctype
 //@ func LineString.Reverse
-//@   ensures result.seq.ctype == s.seq.ctype && len(result.seq.floats) == len(s.seq.floats)
+//@   ensures result.seq.ctype == s.seq.ctype && len(result.seq.floats) == len(s.seq.floats) && fresh(result.seq.floats)
 //@   ensures SeqReversed(result.seq, s.seq)
 
 //@ func Polygon.CoordinatesType
@@ -127,10 +127,12 @@ package geom
 //@ func Sequence.appendAllPoints
 //@   modifies dst
 //@   ensures len(result) == len(dst) + len(s.floats)
+//@   ensures (cap(dst) > 0 && region(result) == region(dst) && offset(result) == offset(dst)) || fresh(result)
 //@ func Sequence.appendPoint
 //@   requires 0 <= i && i < NPts(s)
 //@   modifies dst
 //@   ensures len(result) == len(dst) + Dim(s.ctype)
+//@   ensures (cap(dst) > 0 && region(result) == region(dst) && offset(result) == offset(dst)) || fresh(result)
 //@ func Sequence.assertNoUnusedCapacity
 //@   requires cap(s.floats) == len(s.floats)
 
@@ -151,11 +153,21 @@ package geom
 //@ func Polygon.DumpCoordinates
 //@   trusted
 //@ func Polygon.Coordinates
-//@   trusted
+//@   ensures len(result) == len(p.rings) && fresh(result)
+//@   ensures forall k :: 0 <= k && k < len(p.rings) ==> same(result[k], p.rings[k].seq)
+//@   loop 0 invariant PolyInv(p)
+//@   loop 0 invariant -1 <= rangeindex && rangeindex < len(p.rings) && len(coords) == len(p.rings) && offset(coords) == 0 && fresh(coords)
+//@   loop 0 invariant forall k :: 0 <= k && k <= rangeindex ==> same(coords[k], p.rings[k].seq)
+//@   loop 0 invariant forall k :: rangeindex < k && k < len(coords) ==> len(coords[k].floats) == 0 && coords[k].ctype == 0
 //@ func MultiLineString.DumpCoordinates
 //@   trusted
 //@ func MultiLineString.Coordinates
-//@   trusted
+//@   ensures len(result) == len(m.lines) && fresh(result)
+//@   ensures forall k :: 0 <= k && k < len(m.lines) ==> same(result[k], m.lines[k].seq)
+//@   loop 0 invariant MLSInv(m)
+//@   loop 0 invariant 0 <= i && i <= n && n == len(m.lines) && len(seqs) == n && offset(seqs) == 0 && fresh(seqs)
+//@   loop 0 invariant forall k :: 0 <= k && k < i ==> same(seqs[k], m.lines[k].seq)
+//@   loop 0 invariant forall k :: i <= k && k < n ==> len(seqs[k].floats) == 0 && seqs[k].ctype == 0
 //@ func MultiPolygon.DumpCoordinates
 //@   trusted
 //@ func MultiPolygon.Coordinates
@@ -191,19 +203,25 @@ package geom
 //@   loop 0 invariant forall k :: 0 <= k && k <= rangeindex ==> PolyInv(ps[k]) && ps[k].ctype == m.ctype
 //@ func GeometryCollection.Densify
 //@   trusted
-//@ func LineString.Simplify
-//@   trusted
-//@ func MultiLineString.Simplify
-//@   trusted
 //@ func LineString.TransformXY
 //@   requires fn != nil
 //@   ensures result.seq.ctype == s.seq.ctype && NPts(result.seq) == NPts(s.seq)
 //@ func MultiLineString.TransformXY
-//@   trusted
+//@   requires fn != nil
+//@   ensures result.ctype == m.ctype && len(result.lines) == len(m.lines)
+//@   loop 0 invariant 0 <= i && i <= n && n == len(m.lines) && n > 0 && len(transformed) == n && offset(transformed) == 0 && fresh(transformed)
+//@   loop 0 invariant forall k :: 0 <= k && k < i ==> LSInv(transformed[k]) && transformed[k].seq.ctype == m.ctype
 //@ func Polygon.TransformXY
-//@   trusted
+//@   requires fn != nil
+//@   ensures result.ctype == p.ctype && len(result.rings) == len(p.rings) && fresh(result.rings)
+//@   loop 0 invariant -1 <= rangeindex && rangeindex < len(p.rings) && n == len(p.rings) && len(transformed) == len(p.rings) && offset(transformed) == 0 && fresh(transformed)
+//@   loop 0 invariant forall k :: 0 <= k && k <= rangeindex ==> LSInv(transformed[k]) && transformed[k].seq.ctype == p.ctype
 //@ func MultiPolygon.TransformXY
-//@   trusted
+//@   requires fn != nil
+//@   ensures result.ctype == m.ctype && len(result.polys) == len(m.polys)
+//@   loop 0 invariant MPolyInv(m)
+//@   loop 0 invariant -1 <= rangeindex && rangeindex < len(polys) && len(polys) == len(m.polys) && offset(polys) == 0 && fresh(polys)
+//@   loop 0 invariant forall k :: 0 <= k && k <= rangeindex ==> PolyInv(polys[k]) && polys[k].ctype == m.ctype
 //@ func Point.TransformXY
 //@   requires fn != nil
 //@   ensures result.coords.Type == p.coords.Type && result.full == p.full
@@ -407,10 +425,10 @@ package geom
 //@ func Polygon.forceOrientation
 //@   mode real
 //@   ensures result.ctype == p.ctype && len(result.rings) == len(p.rings) && fresh(result.rings)
-//@   ensures forall k :: 0 <= k && k < len(p.rings) ==> (KeepRing(p, k, forceCW) ==> same(result.rings[k], p.rings[k])) && (!KeepRing(p, k, forceCW) ==> result.rings[k].seq.ctype == p.rings[k].seq.ctype && len(result.rings[k].seq.floats) == len(p.rings[k].seq.floats))
+//@   ensures forall k :: 0 <= k && k < len(p.rings) ==> (KeepRing(p, k, forceCW) ==> same(result.rings[k], p.rings[k])) && (!KeepRing(p, k, forceCW) ==> result.rings[k].seq.ctype == p.rings[k].seq.ctype && len(result.rings[k].seq.floats) == len(p.rings[k].seq.floats) && fresh(result.rings[k].seq.floats))
 //@   loop 0 invariant -1 <= rangeindex && rangeindex < len(p.rings) && len(orientedRings) == len(p.rings) && offset(orientedRings) == 0 && fresh(orientedRings)
 //@   loop 0 invariant forall k :: 0 <= k && k <= rangeindex ==> LSInv(orientedRings[k]) && orientedRings[k].seq.ctype == p.ctype
-//@   loop 0 invariant forall k :: 0 <= k && k <= rangeindex ==> (KeepRing(p, k, forceCW) ==> same(orientedRings[k], p.rings[k])) && (!KeepRing(p, k, forceCW) ==> orientedRings[k].seq.ctype == p.rings[k].seq.ctype && len(orientedRings[k].seq.floats) == len(p.rings[k].seq.floats))
+//@   loop 0 invariant forall k :: 0 <= k && k <= rangeindex ==> (KeepRing(p, k, forceCW) ==> same(orientedRings[k], p.rings[k])) && (!KeepRing(p, k, forceCW) ==> orientedRings[k].seq.ctype == p.rings[k].seq.ctype && len(orientedRings[k].seq.floats) == len(p.rings[k].seq.floats) && fresh(orientedRings[k].seq.floats))
 
 //@ func MultiPolygon.forceOrientation
 //@   ensures result.ctype == m.ctype && len(result.polys) == len(m.polys) && fresh(result.polys)
